@@ -79,6 +79,9 @@ func (g *Genesis) addr(name string) keys.Address {
 	if name == "" {
 		return nil
 	}
+	if a, ok := ethAddr(name); ok {
+		return a
+	}
 	if v, ok := g.Validators[name]; ok {
 		return v.Val.Addr
 	}
